@@ -31,6 +31,18 @@ def run(rep, idx, tier):
     c, site = r.c, r.c.fi.site
     N = c.parse("len(INTRS)", {"INTRS": r.INTRS})
     gd = c.drivers_of(r.GRANT)
+    # a generation-time lower bound on the number of initiators around the encoder excludes only sizes for which the loops emit
+    # nothing anyway: such a guard is read away (common.vacuous_size_guards)
+    from .common import vacuous_size_guards
+    from ..core.dsl import Driver
+    gd2 = []
+    for d in gd:
+        vac = vacuous_size_guards(c, d, N)
+        if vac:
+            rep.count("vacuous_size_guards", len(vac))
+            d = Driver(d.domain, d.target, d.value, d.dsl, tuple(fr for fr in d.gen if fr not in vac), d.order, d.lineno, d.seqno)
+        gd2.append(d)
+    gd = gd2
     rep.count("grant_drivers", len(gd))
     busy = c.eng.cond(c.parse(BUSY))
 
